@@ -65,6 +65,7 @@ func (h *HandlerSet) HandleAnalyzeCode(ctx context.Context, request mcp.CallTool
 		MinComplexity:   1,
 		MinSeverity:     domain.DeadCodeSeverityWarning,
 		CloneSimilarity: 0.8,
+		EnableDFA:       true, // same default as the analyze command
 		ConfigFile:      h.deps.ConfigPath(),
 	}
 	if cfg := h.deps.Config(); cfg != nil {
@@ -720,6 +721,7 @@ func (h *HandlerSet) HandleGetHealthScore(ctx context.Context, request mcp.CallT
 		MinSeverity:     domain.DeadCodeSeverityWarning,
 		MinComplexity:   1,
 		CloneSimilarity: 0.8,
+		EnableDFA:       true, // same default as the analyze command
 		ConfigFile:      h.deps.ConfigPath(),
 	}
 	if cfg := h.deps.Config(); cfg != nil {
